@@ -200,7 +200,9 @@ ChainH(dd, n) ==
   ELSE IF b > 1
        THEN IF Tier = "thorough" THEN Digit(dd.var, b, RankIn(ch, dd.S, n)) ELSE dd.var + RankIn(ch, dd.S, n)
        ELSE IF p \in MapParams
-            THEN IF p = "replace-type" THEN (IF dd.var <= 1 THEN (dd.var + RankIn(ch, dd.S, n)) % 4 ELSE 4 + ((dd.var + NodeIdx(n)) % 2))
+            THEN IF p = "replace-type" THEN (IF dd.var = 0 THEN RankIn(ch, dd.S, n) % 4
+                                             ELSE IF dd.var = 1 THEN <<5, 1, 6, 3>>[(RankIn(ch, dd.S, n) % 4) + 1]     \* explicit {} / inner {} between real mappings
+                                             ELSE 4 + ((dd.var + NodeIdx(n)) % 3))
                  ELSE IF dd.var = 0 THEN RankIn(ch, dd.S, n) % 4
                  ELSE IF dd.var = 1 THEN OddShapes[(RankIn(ch, dd.S, n) % 4) + 1]
                  ELSE 4 + ((dd.var + NodeIdx(n)) % 8)
